@@ -3,9 +3,14 @@ package worldr
 import (
 	"bytes"
 	"context"
+	"crypto/ecdsa"
+	"crypto/ed25519"
+	"crypto/elliptic"
 	"crypto/x509"
+	"crypto/x509/pkix"
 	"encoding/pem"
 	"fmt"
+	"math/big"
 	"os"
 	"path/filepath"
 	"time"
@@ -103,7 +108,7 @@ type delivery struct {
 func deliver(r *core.Run, a, f *Party, base *Issued) delivery {
 	d := delivery{base: base}
 	cur := a.Current()
-	switch k := r.Intn(15, "channel-op"); k {
+	switch k := r.Intn(16, "channel-op"); k {
 	case 0, 1:
 		d.bytes, d.op, d.genuine = base.Bytes, "genuine", true
 	case 2:
@@ -174,6 +179,31 @@ func deliver(r *core.Run, a, f *Party, base *Issued) delivery {
 		payload, _ := proto.Marshal(g)
 		d.bytes, _ = proto.Marshal(&epb.VMLaunchEndorsement{SerializedUefiGolden: payload, Signature: base.Proto.Signature})
 		d.op = "payload-edit-keep-signature"
+	case 15:
+		// a certificate the right root really issued, in date, for a key that is NOT RSA (the root
+		// operator's tooling slipped, say); the signature field holds anything. Whatever error a
+		// key-type mismatch raises, it is not an RSA-PSS/SHA-256 signature by a certified key.
+		var pub any
+		if r.Bool("nonrsa-ed25519") {
+			p, _, _ := ed25519.GenerateKey(core.NewDetReader(5))
+			pub = p
+		} else {
+			k, _ := ecdsa.GenerateKey(elliptic.P256(), core.NewDetReader(6))
+			pub = &k.PublicKey
+		}
+		tpl := &x509.Certificate{SerialNumber: big.NewInt(92), Subject: pkix.Name{CommonName: "non-rsa-signer"}, NotBefore: base.Cert.NotBefore, NotAfter: base.Cert.NotAfter,
+			KeyUsage: x509.KeyUsageDigitalSignature, SignatureAlgorithm: x509.SHA256WithRSAPSS, BasicConstraintsValid: true}
+		der, err := x509.CreateCertificate(core.NewDetReader(7), tpl, a.Root, pub, a.RootKey)
+		if err != nil {
+			d.bytes, d.op, d.genuine = base.Bytes, "genuine", true
+			break
+		}
+		g := proto.Clone(base.Golden).(*epb.VMGoldenMeasurement)
+		g.Cert = der
+		payload, _ := proto.Marshal(g)
+		sig := [][]byte{nil, {}, bytes.Repeat([]byte{0x42}, 256), base.Proto.Signature}[r.Intn(4, "nonrsa-signature")]
+		d.bytes, _ = proto.Marshal(&epb.VMLaunchEndorsement{SerializedUefiGolden: payload, Signature: sig})
+		d.op = "resign:root-issued-non-rsa-key-cert+arbitrary-signature"
 	case 14:
 		// the certificate field holds the genuine signer certificate FOLLOWED by a certificate of
 		// the forger's own (any issuer), and the payload is signed by the forger's key: one
